@@ -199,5 +199,103 @@ theorem createAction_render (vars : List (VarM F)) (hn : (vars.map (·.name)).No
   funext r
   exact svs_lookup vars hn r
 
+/-! ### the accessors of an action -/
+
+theorem findIdxFrom_append {α : Type} (p : α → Bool) : ∀ (pre l : List α) (k : Nat), (∀ x ∈ pre, p x = false) →
+    findIdxFrom p (pre ++ l) k = findIdxFrom p l (k + pre.length) := by
+  intro pre
+  induction pre with
+  | nil => intro l k _; simp
+  | cons a r ih =>
+    intro l k h
+    simp only [List.cons_append, findIdxFrom, h a (by simp), Bool.false_eq_true, if_false]
+    rw [ih l (k + 1) (fun x hx => h x (by simp [hx]))]
+    simp only [List.length_cons]
+    congr 1; omega
+
+theorem lookups_id : ∀ (l pre : List ArgM), ((pre ++ l).map fun a => (a.name, a.direction)).Nodup →
+    l.map (fun a => argLookup (pre ++ l) a.name (some a.direction)) = (List.range' pre.length l.length).map some := by
+  intro l
+  induction l with
+  | nil => intro pre _; rfl
+  | cons a r ih =>
+    intro pre hn
+    simp only [List.map_cons, List.length_cons, List.range'_succ]
+    congr 1
+    · unfold argLookup
+      rw [findIdxFrom_append]
+      · simp [findIdxFrom]
+      · intro x hx
+        rw [List.map_append, List.map_cons] at hn
+        have := (List.nodup_append.mp hn).2.2 (x.name, x.direction) (List.mem_map.mpr ⟨x, hx, rfl⟩)
+          (a.name, a.direction) (by simp)
+        simp only [ne_eq, Prod.mk.injEq, not_and] at this
+        cases h1 : x.name == a.name
+        · rfl
+        · cases h2 : x.direction == a.direction
+          · simp [h2]
+          · exact absurd (by simpa using h2) (this (by simpa using h1))
+    · have := ih (pre ++ [a]) (by simpa [List.append_assoc] using hn)
+      simpa [List.append_assoc] using this
+
+theorem byNameDir_id (name : Str) (args : List ArgM) (h : (args.map fun a => (a.name, a.direction)).Nodup) :
+    (mkAct name args).byNameDir = (List.range args.length).map some := by
+  have := lookups_id args [] (by simpa using h)
+  simpa [mkAct, List.range_eq_range'] using this
+
+theorem idxWhere_mem {α : Type} (p : α → Bool) : ∀ (l : List α) (k i : Nat),
+    i ∈ idxWhere p l k ↔ ∃ a, k ≤ i ∧ l[i - k]? = some a ∧ p a = true := by
+  intro l
+  induction l with
+  | nil => intro k i; simp [idxWhere]
+  | cons x r ih =>
+    intro k i
+    unfold idxWhere
+    have step : (∃ a, k ≤ i ∧ (x :: r)[i - k]? = some a ∧ p a = true) ↔
+        ((i = k ∧ p x = true) ∨ ∃ a, k + 1 ≤ i ∧ r[i - (k + 1)]? = some a ∧ p a = true) := by
+      constructor
+      · rintro ⟨a, hk, hget, hp⟩
+        by_cases he : i = k
+        · subst he; simp at hget; subst hget; exact Or.inl ⟨rfl, hp⟩
+        · right
+          have : i - k = (i - (k + 1)) + 1 := by omega
+          rw [this, List.getElem?_cons_succ] at hget
+          exact ⟨a, by omega, hget, hp⟩
+      · rintro (⟨rfl, hp⟩ | ⟨a, hk, hget, hp⟩)
+        · exact ⟨x, Nat.le_refl _, by simp, hp⟩
+        · have : i - k = (i - (k + 1)) + 1 := by omega
+          exact ⟨a, by omega, by rw [this, List.getElem?_cons_succ]; exact hget, hp⟩
+    rw [step]
+    by_cases hp : p x = true
+    · simp only [hp, if_true, List.mem_cons, ih, and_true]
+    · simp only [hp, Bool.false_eq_true, if_false, ih, and_false, false_or]
+
+theorem idxWhere_sorted {α : Type} (p : α → Bool) : ∀ (l : List α) (k : Nat),
+    (∀ i ∈ idxWhere p l k, k ≤ i) ∧ (idxWhere p l k).Pairwise (· < ·) := by
+  intro l
+  induction l with
+  | nil => intro k; simp [idxWhere]
+  | cons x r ih =>
+    intro k
+    obtain ⟨h1, h2⟩ := ih (k + 1)
+    unfold idxWhere
+    split
+    · refine ⟨?_, ?_⟩
+      · intro i hi
+        rcases List.mem_cons.mp hi with rfl | hi
+        · exact Nat.le_refl _
+        · exact Nat.le_of_succ_le (h1 i hi)
+      · exact List.pairwise_cons.mpr ⟨fun i hi => h1 i hi, h2⟩
+    · exact ⟨fun i hi => Nat.le_of_succ_le (h1 i hi), h2⟩
+
+theorem distinctPairs_nodup : ∀ (l : List (Str × Str)), distinctPairs l = true → l.Nodup := by
+  intro l
+  induction l with
+  | nil => intro _; exact List.nodup_nil
+  | cons a r ih =>
+    intro h
+    simp only [distinctPairs, Bool.and_eq_true, Bool.not_eq_true', List.contains_eq_mem, decide_eq_false_iff_not] at h
+    exact List.nodup_cons.mpr ⟨h.1, ih h.2⟩
+
 end
 end Upnp.C05
